@@ -109,6 +109,8 @@ class ExprMixin:
             return st.ghost[name]
         if name in self.reg.specs:
             return V(FUN, self.reg.specs[name])
+        if name in self.reg.enums and (self.spec_mode or not self.fstack or self.fstack[-1].relpath.startswith('<')):
+            return V(TPy('enumcls'), self.reg.enums[name])
         ctx = self.fstack[-1] if self.fstack else None
         if ctx is not None:
             m = self.src.modules.get(ctx.relpath)
@@ -565,8 +567,9 @@ class ExprMixin:
             i = z3.simplify(idx.t)
             if z3.is_int_value(i) and i.as_long() < 0:
                 pos = n + i
-            elif z3.is_int_value(i):
-                pos = i
+            elif z3.is_int_value(i) or self.spec_mode:
+                # specification expressions index with non-negative positions only (rule of the contract language)
+                pos = idx.t
             else:
                 pos = z3.If(i < 0, n + i, i)
             if not self.raise_if(st, z3.Or(pos < 0, pos >= n), 'IndexError', exits, line,
@@ -683,7 +686,7 @@ class ExprMixin:
                 return V(FUN, FuncRef(c.module.relpath, f'{c.qualname}.{attr}', c.methods[attr], cls=c))
             if attr in c.class_attrs:
                 en = self.reg.enums.get(c.name)
-                if en is not None and attr in en.members:
+                if en is not None and (attr in en.members or (en.aliases and attr in en.aliases)):
                     return V(en, en.member(attr))
                 try:
                     return self.const(ast.literal_eval(c.class_attrs[attr]))
@@ -742,6 +745,8 @@ class ExprMixin:
                 return V(STR, self.UF('enum_name_' + ty.name, ty.sort(), z3.StringSort())(r.t))
             if attr == 'value':
                 return V(INT, self.UF('enum_value_' + ty.name, ty.sort(), z3.IntSort())(r.t))
+        if isinstance(ty, TPy) and ty.kind == 'enumcls':
+            return V(r.t, r.t.member(attr))
         if ty is CLS:
             return self.cls_attr(r, attr, st)
         if ty is MOD:
